@@ -159,9 +159,17 @@ def extract(repo=REPO, verbose=False):
         json.dump(meta, fh, indent=1)
     os.makedirs(CACHE, exist_ok=True)
     # keep the cache small: drop older entries
+    # (entries younger than an hour may be in use by a concurrent check of another tree state)
+    import time
+    now = time.time()
     for old in os.listdir(CACHE):
-        if old != key and not old.startswith(key):
-            shutil.rmtree(os.path.join(CACHE, old), ignore_errors=True)
+        pth = os.path.join(CACHE, old)
+        try:
+            age = now - os.path.getmtime(pth)
+        except OSError:
+            continue
+        if old != key and not old.startswith(key) and age > 3600:
+            shutil.rmtree(pth, ignore_errors=True)
     try:
         os.rename(tmp, out_dir)
     except OSError:
